@@ -240,6 +240,9 @@ def observed_signals(dut):
 def default_cap(cfg, stim):
     nops = sum(len(o) for o in stim["ports"])
     gaps = sum(op.get("gap", 0) for o in stim["ports"] for op in o)
+    lu = max(stim.get("loop_until") or [0])
+    if lu:
+        return int(lu * 3 + 3000 + nops * 40)
     t = cfg["timing"]
     per = (t["tRP"] + t["tRCD"] + (t.get("tRC") or 0) + t["tWR"] + t["tWTR"] + (t.get("tFAW") or 0) + cfg["read_latency"] + 12)
     ref = 0
@@ -253,14 +256,14 @@ def default_cap(cfg, stim):
 
 def run_core(cfg, stim, backend="fast", req=None, max_cycles=None, trace=None, min_cycles=0, tail=12):
     dut, sim = get_sim(cfg, backend)
-    masters = [NativeMaster(p, ops, name="p%d" % i) for i, (p, ops) in enumerate(zip(dut.ports, stim["ports"]))]
+    loops = stim.get("loop_until") or [0] * len(dut.ports)
+    masters = [NativeMaster(p, ops, name="p%d" % i, loop_until=lu) for i, (p, ops, lu) in enumerate(zip(dut.ports, stim["ports"], loops))]
     dram = make_dram(cfg, dut, req)
-    cap = max_cycles or default_cap(cfg, stim)
+    cap = max_cycles or max(default_cap(cfg, stim), min_cycles + 400)
     obs = observed_signals(dut) if trace is not None else None
     quiet = 0
     t = 0
     done = False
-    nreads = [sum(1 for op in m.ops if not op["we"]) for m in masters]
     while t < cap:
         if obs is not None:
             trace.append([sim.get(s) for s in obs])
@@ -269,7 +272,7 @@ def run_core(cfg, stim, backend="fast", req=None, max_cycles=None, trace=None, m
             w += m.cycle(sim, t)
         sim.step(w)
         t += 1
-        if all(m.idle() for m in masters) and dram.quiescent() and all(len(m.r_log) >= n for m, n in zip(masters, nreads)):
+        if all(m.idle() and m.reads_out <= 0 for m in masters) and dram.quiescent():
             quiet += 1
             if quiet >= tail and t >= min_cycles:
                 done = True
